@@ -52,7 +52,46 @@ def display_table(rep, prog):
                 out[(lo, up, c)] = pieces
                 rep.ok(rule)
                 rep.sample({"rule": rule, "shape": shape, "template": "".join(v if k == "lit" else "{%s}" % v for k, v in pieces)})
+    if rep.inconclusive:
+        display_witness(rep, prog, env, key)
     return out
+
+
+def display_witness(rep, prog, env, key):
+    """Display for BoundSet looks into the versions (the shape abstraction does not apply): search for a concrete
+    counterexample on intervals over a small universe of structured versions (including 0.0.0 and 0.0.0-0). The printed
+    text must be the interval's own comparators. A mismatch is genuine; none found leaves the check inconclusive."""
+    from .. import minver
+    from ..interp import Interp
+    rule = "T-DISPLAY-BS-WITNESS"
+    rep.rule(rule, 0, "witness search on structured versions when the shape abstraction of Display does not apply")
+    n = bad = 0
+    for alt in minver.alternatives(minver.bound_universe(True)):
+        (lk, lv), (uk, uv) = alt
+        if lk == "I" and uk == "I" and minver.vcmp(lv, uv) == 0:
+            exp = minver.vstr(lv)
+        else:
+            exp = minver.alt_str(alt)
+        R = minver.build_range(prog, env, [alt])
+        bs = R.fields[0].items[0]
+        pol = minver.MinPolicy()
+        pol.witness = True
+        it = Interp(prog, pol, overrides={})
+        fm = Formatter()
+        try:
+            it.call_body(key, [Ptr(Cell(bs)), Ptr(Cell(fm))])
+        except (Inconclusive, Panic):
+            continue
+        n += 1
+        got = "".join(v if k == "lit" else str(v.val + v.off) if hasattr(v, "val") and isinstance(v.val, int) else "?" for k, v in fm.out)
+        if got == exp:
+            rep.ok(rule)
+        else:
+            bad += 1
+            if bad <= 3:
+                rep.fail(rule, "%s|%s|%s" % (key, rule, "lower bound lost" if got.count(" ") < exp.count(" ") and not got.startswith(">") else "text differs"),
+                         "the interval `%s` prints as `%s`" % (exp, got), example=exp)
+    rep.analysed_item("witness search: Display of %d concrete intervals, %d mismatches" % (n, bad))
 
 
 def tokenise(pieces):
